@@ -8,7 +8,12 @@
    An RDD is modelled by what the stream code can observe of it:
      RNone      Python None (a stream that has not produced an RDD yet)
      REmpty     EmptyRDD (no partitions; what the queue source yields once the queue is exhausted)
-     RData xs   an RDD with one partition holding xs (Context.parallelize without numSlices)
+     RData xs   any other RDD whose collect() is xs: Context.parallelize(xs[, n]) with any number of partitions
+                (collect, toLocalIterator and groupByKey walk the partitions in order), or a lazily transformed RDD
+                (rdd.map / filter / mapValues ...).  The stream code only observes collect() and isinstance(EmptyRDD);
+                the number of partitions shows only in count() applied DIRECTLY to an RDD without partitions that is
+                not an EmptyRDD (a transformed EmptyRDD), which the model identifies with RData [] -- such programs are
+                not generated (count() is always applied to a window's union, which has one partition).
    Tick times are the values of time.time() seen by the callback; only compared, modelled as Z. *)
 From Coq Require Import ZArith NArith Bool String List.
 Require Import PV.Base.Val PV.Gen.Window.
@@ -48,9 +53,16 @@ Definition vals {A} (k : Z) (l : list (Z * A)) : list A := map snd (filter (fun 
 (* distinct keys (first occurrences, in order) *)
 Fixpoint nodupZ (l : list Z) : list Z :=
   match l with [] => [] | x :: r => x :: filter (fun y => negb (y =? x)) (nodupZ r) end.
-(* set(d_self.keys()) | set(d_other.keys()); the iteration order of a Python set is unspecified, the
-   harness therefore compares state RDDs sorted by key *)
-Definition cogroup_keys {A B} (b : list (Z * A)) (st : list (Z * B)) : list Z := nodupZ (map fst b ++ map fst st).
+(* ascending order (insertion sort) *)
+Fixpoint insZ (x : Z) (l : list Z) : list Z :=
+  match l with [] => [x] | y :: l' => if x <=? y then x :: l else y :: insZ x l' end.
+Definition sortZ (l : list Z) : list Z := fold_right insZ [] l.
+(* set(d_self.keys()) | set(d_other.keys()).  The iteration order of a Python set is unspecified; CPython walks the
+   hash table, which for the small non-negative int keys of the generated cases (0..7 in a table of 8 slots) is
+   ascending order.  The theorems do not depend on the order; consumers of the state stream are compared sorted by
+   key, a window over the state stream is compared as emitted (assumption recorded in py/c11.py). *)
+Definition cogroup_keys {A B} (b : list (Z * A)) (st : list (Z * B)) : list Z :=
+  sortZ (nodupZ (map fst b ++ map fst st)).
 (* rdd.cogroup(state_rdd).mapValues(convert_fn): convert_fn takes state_list[-1] if state_list else None *)
 Definition state_step (u : list val -> val -> val) (b st : list (Z * val)) : list (Z * val) :=
   map (fun k => (k, u (vals k b) (last (vals k st) VNone))) (cogroup_keys b st).
@@ -75,13 +87,29 @@ Inductive tfun : Type :=
 | FCapture (j : Z)    (* foreachRDD(lambda rdd: log.append((j, None if rdd is None else rdd.collect()))) *)
 | FCountParts         (* lambda rdd: rdd.mapPartitionsWithIndex(lambda i, p: [sum(1 for _ in p)]) *)
 | FSetName            (* lambda rdd: rdd.setName(...) *)
-| FReduceAdd.         (* lambda rdd: rdd.map((None, i)).reduceByKey(add).map(snd) *)
+| FReduceAdd          (* lambda rdd: rdd.map((None, i)).reduceByKey(add).map(snd) *)
+| FMapInc             (* rdd.map / mapPartitionsWithIndex applying INC to every element (DStream.map, transform) *)
+| FFilterEven         (* lambda rdd: rdd.filter(EVEN) *)
+| FFlatDup            (* mapPartitionsWithIndex applying lambda x: [x, x] and flattening (DStream.flatMap) *)
+| FMapValuesInc.      (* lambda rdd: rdd.mapValues(INC) *)
+
+(* the element functions: INC = lambda x: x + 1 if type(x) is int else x ; EVEN = lambda x: type(x) is int and x % 2 == 0 *)
+Definition v_inc (v : val) : val := match v with VInt z => VInt (z + 1) | _ => v end.
+Definition v_even (v : val) : bool := match v with VInt z => Z.even z | _ => false end.
+Definition v_mapvalue (v : val) : option val :=
+  match v with VTup [k; x] => Some (VTup [k; v_inc x]) | _ => None end.
+Fixpoint all_mapvalues (l : list val) : option (list val) :=
+  match l with
+  | [] => Some []
+  | v :: l' => match v_mapvalue v, all_mapvalues l' with Some a, Some r => Some (a :: r) | _, _ => None end
+  end.
 
 Inductive node : Type :=
 | Src (q : list (list val))                        (* ssc.queueStream(q): oneAtATime, default None *)
 | Trans (f : tfun) (p : nat)                       (* TransformedDStream(prev = node p, f) *)
 | Window (w s : Z) (p : nat)                       (* WindowedDStream(prev = node p, w, s), durations in intervals *)
-| Stateful (u : list val -> val -> val) (p : nat). (* StatefulDStream(prev = node p, u) *)
+| Stateful (u : list val -> val -> val) (p : nat)  (* StatefulDStream(prev = node p, u) *)
+| Union (p1 p2 : nat).                             (* node p1 .union(node p2): TransformedWithDStream(p1, union_rdds, p2) *)
 
 Definition logentry : Type := (Z * Z * option (list val))%type.   (* tick time, consumer, captured *)
 
@@ -124,6 +152,19 @@ Definition apply_tfun (f : tfun) (t : Z) (r : rdd) : res (rdd * list logentry) :
           | Some zs => Ok (RData [VInt (sumZ zs)], [])
           | None => Err "TypeError"
           end
+      end
+  (* lazily transformed RDDs; a transformed EmptyRDD is not an EmptyRDD any more (see the note on RData) *)
+  | FMapInc => match r with RNone => Err "AttributeError" | _ => Ok (RData (map v_inc (collect r)), []) end
+  | FFilterEven => match r with RNone => Err "AttributeError" | _ => Ok (RData (filter v_even (collect r)), []) end
+  | FFlatDup => match r with RNone => Err "AttributeError"
+                | _ => Ok (RData (flat_map (fun x => [x; x]) (collect r)), []) end
+  | FMapValuesInc =>
+      match r with
+      | RNone => Err "AttributeError"
+      | _ => match all_mapvalues (collect r) with
+             | Some l => Ok (RData l, [])
+             | None => Err "TypeError"   (* an element that is not a pair; raised lazily by the real code, not generated *)
+             end
       end
   end.
 
@@ -173,6 +214,14 @@ Definition trans_post (f : tfun) (t : Z) (pr : rdd) (n : nstate) : nstate * list
        | Ok (r, lg) => (set_rdd r n1, lg, None)
        | Err e => (n1, [], Some e)
        end.
+
+(* the part of TransformedWithDStream._step (union) after both parents were stepped *)
+Definition union_post (t : Z) (r1 r2 : rdd) (n : nstate) : nstate * option string :=
+  let n1 := set_time t n in
+  match union [r1; r2] with
+  | Ok r => (set_rdd r n1, None)
+  | Err e => (n1, Some e)
+  end.
 
 Definition put (i : nat) (n : nstate) (st : gstate) : gstate := updn i (fun _ => n) st.
 Definition add_log (lg : list logentry) (st : gstate) : gstate := mkG (gnodes st) (glog st ++ lg).
@@ -234,6 +283,25 @@ Fixpoint step (fuel : nat) (g : list node) (i : nat) (t : Z) (st : gstate) : gst
                     | None => (st1, Some "BadGraph")
                     end
                 end
+          | Union p1 p2 =>
+              if tw_guard t (ntime ns) then (st, None)
+              else
+                let '(st1, e) := step fuel' g p1 t st in
+                match e with
+                | Some _ => (st1, e)
+                | None =>
+                    let '(st2, e') := step fuel' g p2 t st1 in
+                    match e' with
+                    | Some _ => (st2, e')
+                    | None =>
+                        match nth_error (gnodes st2) i with
+                        | Some ns2 =>
+                            let '(n2, e2) := union_post t (rdd_of st2 p1) (rdd_of st2 p2) ns2 in
+                            (put i n2 st2, e2)
+                        | None => (st2, Some "BadGraph")
+                        end
+                    end
+                end
           end
       | _, _ => (st, Some "BadGraph")
       end
@@ -292,6 +360,30 @@ Definition prog_count_state (q : list (list val)) (w s : Z) (u : list val -> val
   Src q :: Window w s 0 :: Trans FCountParts 1 :: Trans FSetName 2 :: Trans FReduceAdd 3 :: consumers 4 k
   ++ Stateful u 0 :: consumers_from (5 + k) k k.
 
+(* ---- windows over derived streams: the parent of the window is not a source ----
+   variant 0 q.map(INC) (three transformed streams)        1 q.filter(EVEN)        2 q.flatMap(dup) (two streams)
+           3 q.mapValues(INC)        4 q.updateStateByKey(u)        5 q.union(q2), q2 = queueStream(tail of q's batches)
+           6 q.transform(lambda rdd: rdd.map(INC)) *)
+Definition derived_parent (pv : Z) (u : list val -> val -> val) (q : list (list val)) : option (list node) :=
+  match pv with
+  | 0 => Some [Src q; Trans FMapInc 0; Trans FSetName 1; Trans FSetName 2]
+  | 1 => Some [Src q; Trans FFilterEven 0]
+  | 2 => Some [Src q; Trans FFlatDup 0; Trans FSetName 1]
+  | 3 => Some [Src q; Trans FMapValuesInc 0]
+  | 4 => Some [Src q; Stateful u 0]
+  | 5 => Some [Src q; Src (tl q); Union 0 1]
+  | 6 => Some [Src q; Trans FMapInc 0]
+  | _ => None
+  end.
+(* parent.window(w, s) [.count()] with consumers 0..k-1, and one consumer (k) on the parent itself *)
+Definition prog_window_over (count : bool) (pre : list node) (w s : Z) (k : nat) : list node :=
+  let p := (length pre - 1)%nat in
+  let mid := if count
+             then [Window w s p; Trans FCountParts (p + 1); Trans FSetName (p + 2); Trans FReduceAdd (p + 3)]
+             else [Window w s p] in
+  let out := (p + length mid)%nat in
+  pre ++ mid ++ consumers out k ++ [Trans (FCapture (Z.of_nat k)) p].
+
 (* ---- the library of update functions (Python twins in py/c11.py) ---- *)
 Definition z_of (v : val) : Z := match v with VInt z => z | _ => 0 end.
 (* lambda vs, s: (s if s is not None else 0) + sum(v or 0 for v in vs)   (None values count as 0) *)
@@ -320,3 +412,10 @@ Definition u_reset (vs : list val) (s : val) : val :=
 Definition ints_of (vs : list val) : list Z := flat_map (fun v => match v with VInt z => [z] | _ => [] end) vs.
 Definition u_minopt (vs : list val) (s : val) : val :=
   match ints_of (vs ++ [s]) with [] => VNone | z :: zs => VInt (fold_left Z.min zs z) end.
+(* order-sensitive update functions *)
+(* lambda vs, s: s if s is not None else (vs[0] if vs else None)   -- the first value ever seen *)
+Definition u_first (vs : list val) (s : val) : val := match s with VNone => hd VNone vs | _ => s end.
+(* lambda vs, s: (s or '') + ''.join(chr(97 + (v + 5) % 26) for v in vs if v is not None)   -- string concatenation *)
+Definition u_concat (vs : list val) (s : val) : val :=
+  VStr ((match s with VStr l => l | _ => [] end)
+        ++ flat_map (fun v => match v with VInt z => [Z.to_N (97 + (z + 5) mod 26)] | _ => [] end) vs).
